@@ -236,6 +236,7 @@ def check(chk):
     _plumbing(chk, repo)
     _settings_not_mutated(chk, repo)
     _start_order_and_fadeout_timer(chk, repo)
+    _subscription_play_stop_same_key(chk, repo)
 
     # ------------------------------------------------------------ FLOW-8
     lp = repo.cls(LP, "LightPlayer")
@@ -490,6 +491,31 @@ EV_NAMES = ["events_when_played", "events_when_stopped", "events_when_looped", "
 CFG_NAMES = ["priority", "speed", "loops", "sync_ms", "manual_advance", "show_tokens"] + EV_NAMES
 
 
+def _subscription_play_stop_same_key(chk, repo):
+    """SUBS-17: a show started by a condition is stopped by that condition under the same key.  In ShowPlayer.handle_subscription_change
+    the play call and the stop call address one key expression (the entry's explicit `key:` if it has one, else the subscription key),
+    the same instance dict and the same show.  A stop under another key finds nothing and returns silently: the show keeps running, its
+    lights stay on their stacks, until the whole context is cleared."""
+    SP = "mpf/config_players/show_player.py"
+    f = repo.func(SP, "ShowPlayer.handle_subscription_change")
+    chk.analysed(f)
+    cfg = f.cfg()
+    plays = [(n, c) for n, c in cfg.calls_named("_play")]
+    stops = [(n, c) for n, c in cfg.calls_named("_stop")]
+    chk.need(len(plays) == 1 and len(stops) == 1, "SUBS-17", "handle_subscription_change plays when the condition holds and stops when it does not", f)
+    (pn, pc), (sn, sc) = plays[0], stops[0]
+    pa, sa_ = [src(a) for a in pc.args[:3]], [src(a) for a in sc.args[:3]]
+    chk.ob("SUBS-17", "the conditional show is stopped under the key, instance dict and show name it was played with", pa == sa_ and len(pa) == 3, f.where(sc),
+           detail="played with %s, stopped with %s" % (pa, sa_), construct=f.ident, text="subscription play/stop addressing")
+    kdef = [x for x in walk_local(f.node) if isinstance(x, ast.Assign) and isinstance(x.targets[0], ast.Name) and pc.args and src(pc.args[0]) == x.targets[0].id]
+    ok = len(kdef) == 1 and isinstance(kdef[0].value, ast.IfExp) and "show_settings['key']" in src(kdef[0].value.body).replace('"', "'") and src(kdef[0].value.orelse) == "key"
+    chk.ob("SUBS-17", "the key is the entry's own `key:` when it has one, else the subscription's", ok, f.where(kdef[0]) if kdef else f.where(), construct=f.ident,
+           text="subscription show key")
+    pg, sg = cfg.guards_at(pn.id), cfg.guards_at(sn.id)
+    chk.ob("SUBS-17", "play iff the condition's value is true, stop iff it is false", pg.get("value") is True and sg.get("value") is False, f.where(),
+           detail="play under %s, stop under %s" % (sorted(pg.items()), sorted(sg.items())), construct=f.ident, text="subscription toggle")
+
+
 def _plumbing(chk, repo):
     """FWD-17: what the caller asked for (speed, loops, start step, sync, tokens, priority, the nine event lists, start time and the two
     callbacks) reaches the RunningShow under the same name on every route: Show.play, ShowController.play_show_with_config /
@@ -739,6 +765,7 @@ def _token_cache(chk, repo):
 def battery():
     from sa.battery import M
     return [
+        M("conditional show stopped under the subscription key", "mpf/config_players/show_player.py", "                self._stop(show_key, instance_dict, show.name, show_settings, False, None, {})", "                self._stop(key, instance_dict, show.name, show_settings, False, None, {})", "SUBS-17"),
         M("step time rounded to ms", SH, "        time_to_next_step = self.show_steps[self.current_step_index]['duration'] / self.show_config.speed", "        time_to_next_step = round(self.show_steps[self.current_step_index]['duration'] / self.show_config.speed, 3)", "DOM-31"),
         M("relative scheduling", SH, "            self._delay_handler = self.machine.clock.loop.call_at(when=self.next_step_time,\n                                                                  callback=self._run_next_step)", "            self._delay_handler = self.machine.clock.loop.call_later(time_to_next_step, self._run_next_step)", "DOM-31"),
         M("rebased every step", SH, "            self.next_step_time += time_to_next_step\n", "            self.next_step_time = self.machine.clock.get_time() + time_to_next_step\n", "DOM-31"),
